@@ -5,4 +5,4 @@ From GrolModel Require Import AutoSave.
 Extraction Language OCaml.
 Extraction "autosave_model.ml"
   autosave_skeleton autosave_state_file fs_get fs_set init torn_step run_steps after observe
-  autosave_actions autosave_session session_after crash_possible fault_possible.
+  autosave_actions autosave_session session_after crash_possible crash_possible_fast fault_possible.
